@@ -104,7 +104,7 @@ func c09Corpus(tier string) []*gen.Expr {
 
 var c09Extra = []string{"F in [5, 1, 3, 1, 4, 2]", `X in ["b", "a", "b", "c"]`, "F not in [2, 2, 1]", `["ab", S matches "a" + "b"]`, `S matches "a" + "b" and "ab" == S`, "Zz + 1", "Zz", "Zq == nil",
 	"PtrOnly()", "PtrOnly() + I", "O.Get() + P.Get()", `{a: 1, b: 2, c: 3}`, `M["zz"]`, `MA["zz"]`, "A[1:2]", "filter(A, {# > 1})", "SA[0:1]", "map(OS, {.Next})", "O?.Next", "AA", "OS[0]",
-	"I %\t(I - I)", "A[7] +\t1", "[\"a\tb\", A[9]]", "\tI % (J - 2)", "map(A, {#\t% (I - 1)})"}
+	"{(O): 1}", "{(S): I, (P): 2}", "{(OS[0]): S}", "{(I): 1, (F): 2}", "I %\t(I - I)", "A[7] +\t1", "[\"a\tb\", A[9]]", "\tI % (J - 2)", "map(A, {#\t% (I - 1)})"}
 
 // c09History: explicit enumeration of short HISTORIES of compile operations in one process. The alphabet mixes
 // expr.Compile under several option sets, the configuration-less compile that expr.Eval performs
